@@ -621,10 +621,30 @@ func main() {
 			cmd := exec.Command(bin, "-tier", tier, "-replay", rp)
 			cmd.Env = append(os.Environ(), fmt.Sprintf("GOMAXPROCS=%d", def.MaxProcs))
 			cmd.Stdout, cmd.Stderr = io.Discard, io.Discard
-			if err := cmd.Run(); err != nil {
+			cmd.Start()
+			done := make(chan error, 1)
+			go func() { done <- cmd.Wait() }()
+			var err error
+			timedOut := false
+			select {
+			case err = <-done:
+			case <-time.After(150 * time.Second):
+				cmd.Process.Kill()
+				<-done
+				timedOut = true
+			}
+			if timedOut {
+				if v.Signature == "no-progress" || v.Signature == "hang" {
+					fails++ // the replay hangs again
+				}
+			} else if err != nil {
 				if ee, ok := err.(*exec.ExitError); ok && (ee.ExitCode() == 1 || (v.Signature == "process-crash" && ee.ExitCode() != 0)) {
 					fails++
 				}
+			}
+			if (v.Signature == "no-progress" || v.Signature == "hang") && i == 1 && fails == 2 {
+				fails = reps // two hanging replays are enough (each costs minutes)
+				break
 			}
 		}
 		if fails != reps {
